@@ -139,8 +139,9 @@ class RINGReaderError(RINGError):
     """
     Exception raised when input does not conform to RING syntax.
     """
-    def __init__(self, message):
-        self.message = message
+    def __init__(self, *message):
+        # Several call sites pass the message in pieces.
+        self.message = ' '.join(str(part) for part in message)
 
     def __str__(self):
         return self.message
@@ -153,8 +154,9 @@ class MolQueryError(Exception):
     """
     Exception raised when input does not conform to RING syntax.
     """
-    def __init__(self, message):
-        self.message = message
+    def __init__(self, *message):
+        # Several call sites pass the message in pieces.
+        self.message = ' '.join(str(part) for part in message)
 
     def __str__(self):
         return self.message
@@ -167,8 +169,9 @@ class ReactionQueryError(Exception):
     """
     Exception raised when input does not conform to RING syntax.
     """
-    def __init__(self, message):
-        self.message = message
+    def __init__(self, *message):
+        # Several call sites pass the message in pieces.
+        self.message = ' '.join(str(part) for part in message)
 
     def __str__(self):
         return self.message
